@@ -24,6 +24,22 @@ Proof. rewrite read_num_fmt_int. cbn [option_map]. f_equal. apply (as_nat_tnat n
 Lemma fmt_int_inj a b : fmt_int a = fmt_int b -> a = b.
 Proof. intro H. pose proof (read_int_fmt_int a) as Ha. rewrite H, read_int_fmt_int in Ha. now injection Ha. Qed.
 
+(* an integer within the range of the declared integer data type, written by fmt_int, is read back exactly at that type;
+   a word with a '.' or an exponent is NOT a word of an integer type *)
+Lemma read_at_fmt_int d lo hi z : int_range d = Some (lo, hi) -> (lo <= z <= hi)%Z -> read_at d (fmt_int z) = Some (z, 1%positive).
+Proof.
+  intros H [H1 H2]. unfold read_at. rewrite H, read_int_fmt_int.
+  apply Z.leb_le in H1. apply Z.leb_le in H2. now rewrite H1, H2.
+Qed.
+Lemma read_at_int_only d r s v : int_range d = Some r -> read_at d s = Some v -> exists z, read_int s = Some z /\ v = (z, 1%positive).
+Proof.
+  intros H. unfold read_at. rewrite H. destruct r as [lo hi]. destruct (read_int s) as [z |]; [| discriminate].
+  destruct ((lo <=? z)%Z && (z <=? hi)%Z); [| discriminate]. intro E. injection E as <-. now exists z.
+Qed.
+Lemma float_literal_not_integer_word : read_at ULONG "9007199254740992.0" = None /\ read_at ULONG "3.0" = None /\ read_at INT "1e+16" = None
+  /\ read_at ULONG "9007199254740993" = Some (9007199254740993%Z, 1%positive) /\ read_at UINT "-1" = None.
+Proof. repeat split; vm_compute; reflexivity. Qed.
+
 Lemma word_table_lex names s t : In (s, t) word_table -> lex_word names s = t.
 Proof.
   intro H. cbn in H.
